@@ -283,6 +283,37 @@ def check_seq(sq, fails, stats):
                 fail("C09_group_partition", "groups %s are not a partition of the keys %s" % (groups, a[0]))
             if keys and not firstok:
                 fail("C09_group_partition", "first region %s is not the group of the first key" % first)
+        elif name == "groupf" and ok:
+            # GroupKeysByRegion with the split-key filter (equalRegionStartKey): every kept key is in its region; keys are only dropped,
+            # never invented; for strictly increasing keys no kept key is the start key of its region (C09_group_filter_sorted); for
+            # other key lists a kept key equal to its region's start key is an observation outside C09 (counted in the evidence only)
+            keys = a[0].split(";") if a[0] else []
+            parts = body.split(" ")
+            groups = parts[1] if len(parts) > 1 else ""
+            regmap, kept = regs_of(op["dump"]), []
+            incr = all(unhex(keys[i]) < unhex(keys[i + 1]) for i in range(len(keys) - 1))
+            stats["filtered_groupings"] = stats.get("filtered_groupings", 0) + 1
+            for g in [x for x in groups.split(";") if x]:
+                v, ks = g.split("=")
+                ks = ks.split("/")
+                kept += ks
+                vid = tuple(int(y) for y in v.split(","))
+                if vid in regmap:
+                    s_, e_ = regmap[vid]
+                    for k in ks:
+                        if not contains(s_, e_, unhex(k)):
+                            fail("C09_group_partition", "key %s grouped under %s whose cached range [%s,%s) does not contain it" % (k, v, s_.hex(), e_.hex()))
+                        elif unhex(k) == s_ and incr:
+                            fail("C09_group_filter_sorted", "GroupKeysByRegion(%s, equalRegionStartKey): key %s is kept under %s although it is that region's start key" % (a[0], k, v))
+                        elif unhex(k) == s_:
+                            # observation, no clause of C09: the filter is not consulted for a key served from the last location
+                            stats["obs_group_filter_lastloc"] = stats.get("obs_group_filter_lastloc", 0) + 1
+            rest = list(keys)
+            for k in kept:
+                if k in rest:
+                    rest.remove(k)
+                else:
+                    fail("C09_group_partition", "groups %s contain key %s more often than the input %s" % (groups, k, a[0]))
         # a lookup must not fail when every PD answer it got was usable (non-empty, every region with a leader)
         if name == "ctxread" and ok and before and before[0] != "_":
             # replica reads, judged on the cache content before the call: the entry of that version, its peers, the store epochs
@@ -307,7 +338,7 @@ def check_seq(sq, fails, stats):
                     fail("C09_read_ctx_prefer_leader", what + ": must be the work peer")
                 if kind == "follower" and idx == work and len(peers) > 1 and seed + len(peers) > 2 ** 32 and any(fresh(j) for j in range(len(peers)) if j != work):
                     stats["obs_follower_seed_wrap"] = stats.get("obs_follower_seed_wrap", 0) + 1
-        if res == "err" and name in ("locate", "locate_end", "range", "batch", "loadrange", "bload", "bloads", "group", "listids") and op["qs"]:
+        if res == "err" and name in ("locate", "locate_end", "range", "batch", "loadrange", "bload", "bloads", "group", "groupf", "listids") and op["qs"]:
             usable = all(q[-1] not in ("none", "_") for q in op["qs"]) and qs_all_have_leader(op) and \
                      all(d["leader"].split(":")[0] != "0" for q in op["qs"] if q[0] in ("get", "prev", "byid") for d in parse_descs(q[-1]))
             if usable and not (name in ("bload", "bloads") and "0" in (a[2:3] if name == "bload" else a[1:2])):
@@ -581,7 +612,7 @@ def main(tier, replay):
                     "that touch PD or the merger",
                samples=samples, traces_validated_against_impl=mstats.get("cases", 0), input_distribution=classes,
                sequences=mstats.get("seqs", 0), store_replies_compared=mstats.get("replies", 0), invariant_states_checked=mstats.get("inv_checked", 0), invariant_failures=len(invs), truth_wf_checked=mstats.get("wf_checked", 0), histories_checked=mstats.get("hist_checked", 0), pd_truth_answers_checked=mstats.get("pd_truth_checked", 0), history_states=mstats.get("hist_states", 0), model_mismatches=len(mism), oracle_failures=len([f for f in fails if not f["finding_class"]]),
-               known_finding_hits=len([f for f in fails if f["finding_class"]]), bucket_lookups=stats.get("bucket_lookups", 0), stuck_rounds=stats.get("stuck_rounds", 0), sender_convergences=stats.get("sender_convs", 0), sender_effects_explained=stats.get("sender_prims", {}), replica_reads=stats.get("replica_reads", 0), observations={"bucket_fallback_unclamped": stats.get("obs_bucket_fallback_unclamped", 0), "follower_read_seed_wrap_falls_back_to_leader": stats.get("obs_follower_seed_wrap", 0), "probe_follower_wrap": stats.get("probe_follower_wrap", [])},
+               known_finding_hits=len([f for f in fails if f["finding_class"]]), bucket_lookups=stats.get("bucket_lookups", 0), stuck_rounds=stats.get("stuck_rounds", 0), sender_convergences=stats.get("sender_convs", 0), sender_effects_explained=stats.get("sender_prims", {}), replica_reads=stats.get("replica_reads", 0), filtered_groupings=stats.get("filtered_groupings", 0), observations={"bucket_fallback_unclamped": stats.get("obs_bucket_fallback_unclamped", 0), "follower_read_seed_wrap_falls_back_to_leader": stats.get("obs_follower_seed_wrap", 0), "probe_follower_wrap": stats.get("probe_follower_wrap", []), "group_filter_not_consulted_for_last_location": stats.get("obs_group_filter_lastloc", 0)},
                convergence_rounds={str(k): n for k, n in sorted(stats["conv_rounds"].items())}, convergence_bound=CONV_BOUND)
     rc = v.finish()
     vlib.write_evidence(PID, cov, t0, violations=len(v.violations), level="proof",
